@@ -7,7 +7,8 @@ from hypothesis import strategies as st
 from vlib.core import HypClause, EnumClause
 from vlib import util as U
 
-RULE = ("[Round-8 hardening: (a) the coordinate arrays handed to the primitives are also an affine image of the sample grid - rotated by any angle ('rotate the "
+RULE = ("[Round-9 hardening, clause integer_grids: whole-number coordinate arrays of every integer width - int8, int16, int32, int64, uint8, uint16, uint32, uint64 - whose spacing is the drawn fraction (mostly 0.3 .. 1) of the largest whole number for which every coordinate and every coordinate - centre still fits the dtype, so that squares and products of coordinates do not (signed: sample i at (i - n//2) dx; unsigned: at (i + i0) dx, i0 = 0..3); shapes 5..40 (72) per axis and thin ones, every memory layout, rows ascending or reversed; the centre (|c| <= 3 dx; unsigned grids: at or before the first sample when it is subtracted in the integer dtype) as Python ints, floats, numpy integers of the grid dtype; sizes generic or whole numbers of samples (the radius then also as Python int).  offset_circle, circle / annulus on numpy.hypot of the arrays, rectangle (angle 0 / 90 / any), rotated_ellipse, regular_polygon, spider and rectangle_with_corner_fillets are compared sample by sample with the analytic shape evaluated in float64, offset_circle also for growth.  Clauses round_masks / spider: whole-number centres also written as Python ints (the difference coordinate - centre then keeps the dtype of the grid, e.g. int32 grids with spacing 10000).]  "
+        "[Round-8 hardening: (a) the coordinate arrays handed to the primitives are also an affine image of the sample grid - rotated by any angle ('rotate the "
         "coordinates, then shade'), sheared along x or y, scaled differently in x and y, all three combined, x and y being one and the same array object (all samples on "
         "the line y = x) - stored in another sample order (axes reversed, rows / columns permuted, transposed = indexing 'ij'); with integer coordinate arrays the frames "
         "that keep whole numbers whole (quarter turns, shear +-1, whole-number scales).  Membership is defined sample by sample, so circle / annulus on r = hypot(x', y'), "
@@ -69,6 +70,11 @@ ASSUMPTIONS = [
     "windows / local_masks / local_coords / amp - but np.isin does not look into them, so all_centers keeps the centres of excluded ring segments; all_centers is not examined for "
     "these collections (the centres are then read from the same aperture built with the exclusion written as a tuple).  One-shot iterators are consumed by the first membership "
     "test on the unchanged tree and are not generated as `exclude`",
+    "integer coordinate grids: numpy evaluates hypot / arctan2 / cos of 8-bit integers in float16 and of 16-bit integers in float32 (and compares the result with a Python-float size in that precision); "
+    "samples closer to the analytic boundary than 4 eps S (one hypot, one comparison: bound 1 eps S) resp. 32 eps S (to polar coordinates, an added angle within +-180 degrees, and back: bound ~10 eps S; "
+    "observed <= 3.6 eps S over 6000 grids), eps = 2**-10 / 2**-23, S = largest distance the routine works with, are don't-care on such grids (plus the 1e-9 S / 1e-7 S of the other clauses); a coordinate - centre "
+    "that does not fit the integer dtype wraps in numpy's own integer arithmetic before prysm sees it (unsigned grids with a centre to the right of a sample, narrow grids used to their last value): such "
+    "grids are not generated with an integer-typed centre",
     "truecircle is anti-aliased on a grid normalised to [-1,1] and is checked as such",
     "apertures are generated to lie inside the grid with >= 2 samples of margin (clipping by the array edge is not examined)",
     "OPD bases: values of the basis functions are not asserted here (C07/C08), only support, constancy of the piston, linearity",
@@ -1316,7 +1322,9 @@ def strat_round(tier):
     return st.fixed_dictionaries({
         'shape': shape_s(5, N), 'dx': st.sampled_from(DXS),
         'rad': st.integers(0, 1500).map(lambda v: v / 1000), 'rad2': st.integers(0, 1500).map(lambda v: v / 1000),   # fractions of the half-extent
-        'center': st.one_of(st.just([0.0, 0.0]), st.tuples(st.integers(-50, 50), st.integers(-50, 50)).map(lambda t: [t[0] / 10, t[1] / 10])),  # in samples
+        'center': st.one_of(st.just([0.0, 0.0]), st.tuples(st.integers(-50, 50), st.integers(-50, 50)).map(lambda t: [t[0] / 10, t[1] / 10]),
+                            st.tuples(st.integers(-5, 5), st.integers(-5, 5)).map(lambda t: [float(t[0]), float(t[1])])),  # in samples
+        'center_form': st.sampled_from(['float', 'float', 'int']),       # a whole-number centre written as Python ints: coordinate - centre keeps the dtype of the grid
         **prim_extras(),
     })
 
@@ -1357,6 +1365,9 @@ def check_round(case, ctx):
         check_symmetry(ctx, an, margin, band, ['flipx', 'flipy', 'rot180', 'rot90', 'transpose'], 'annulus', 'annulus(%g,%g)' % (r1, r2))
     # offset circle
     cx, cy = case['center'][0] * dx, case['center'][1] * dx
+    if case.get('center_form', 'float') == 'int' and float(cx).is_integer() and float(cy).is_integer() and max(abs(cx), abs(cy)) < 2 ** 31:
+        cx, cy = int(cx), int(cy)
+        ctx.label('offset_circle:centre-as-python-ints')
     oc = keep.result('offset_circle(r2)', ctx.call(G.offset_circle, r2, x, y, (cx, cy)))
     ro = np.hypot(g.xse - cx, g.yse - cy)
     msg = compare_mask(ctx, oc, ro <= r2, ro - r2, band, 'offset_circle', 'offset_circle(%g, center=(%g,%g))' % (r2, cx, cy))
@@ -1674,6 +1685,7 @@ def strat_spider(tier):
         'rotation': st.one_of(st.just(0.0), st.sampled_from([0.0, 90.0, 45.0, 180.0]), st.integers(-7200, 10800).map(lambda v: v / 10), st.sampled_from([1e-6, -1e-6, 1e-12, 90.00001, 89.99999, -1e-9, 360.0, 450.0])),
         'rad': st.booleans(), 'rad_flag': st.sampled_from(['bool', 'bool', 'int', 'numpy']),
         'center': st.one_of(st.just([0.0, 0.0]), st.tuples(st.integers(-40, 40), st.integers(-40, 40)).map(lambda t: [t[0] / 10, t[1] / 10])),
+        'center_form': st.sampled_from(['float', 'float', 'int']),
         **prim_extras(),
     })
 
@@ -1706,6 +1718,9 @@ def check_spider(case, ctx):
     half = max(max(ny, nx) * dx, 2 * g.ext)
     vanes, width, rot = case['vanes'], g.size(case['width'] * dx) * (2 if g.snap else 1), case['rotation']   # snapped: half-width on a sample row
     c = (case['center'][0] * dx, case['center'][1] * dx)
+    if case.get('center_form', 'float') == 'int' and float(c[0]).is_integer() and float(c[1]).is_integer() and max(abs(c[0]), abs(c[1])) < 2 ** 31:
+        c = (int(c[0]), int(c[1]))
+        ctx.label('spider:centre-as-python-ints')
     band = g.band(half)
     ctx.label('vanes:%d' % vanes, 'rot0' if rot == 0 else 'rotated', 'rad' if case['rad'] else 'deg', 'offset' if any(case['center']) else 'centred')
     rarg = math.radians(rot) if case['rad'] else rot
@@ -1749,7 +1764,201 @@ def check_spider(case, ctx):
     keep.verify('spider')
 
 
+# ---- integer coordinate grids of every width, extents whose squares / products do not fit the dtype -------------------------------------
+INT_DTYPES = ['int8', 'int8', 'int16', 'int16', 'int32', 'int64', 'uint8', 'uint16', 'uint32', 'uint64']
+CENTER_FORMS = ['int', 'int', 'float', 'np-same']
+
+
+def strat_int_grid(tier):
+    N = 40 if tier == 'quick' else 72
+    ax = st.integers(5, N)
+    frac = st.integers(50, 1200).map(lambda v: v / 1000)
+    ang = st.one_of(st.just(0.0), st.sampled_from([90.0, 45.0, 30.0, 180.0, -90.0]), st.integers(-1800, 1800).map(lambda v: v / 10))
+    return st.fixed_dictionaries({
+        'shape': st.one_of(st.tuples(ax, ax).map(list), st.tuples(ax, ax).map(list), st.tuples(ax, ax).map(list), st.sampled_from([[3, 120], [120, 2], [1, 90]])),
+        'idt': st.sampled_from(INT_DTYPES),
+        # how much of the range of the dtype the coordinates (and coordinate - centre) use, per mille of the largest whole-number spacing that fits
+        'fill': st.one_of(st.integers(300, 1000), st.integers(300, 1000), st.integers(1, 1000), st.just(1000)),
+        'i0': st.integers(0, 3),                       # unsigned grids: index of the first sample (coordinates (i + i0) dx >= 0)
+        'center': st.tuples(st.integers(-3, 3), st.integers(-3, 3)).map(list), 'center_form': st.sampled_from(CENTER_FORMS),     # in samples
+        'rad': frac, 'grow': st.integers(1, 400).map(lambda v: v / 1000), 'snap': st.booleans(),
+        'w': frac, 'h': frac, 'angle': ang, 'a': frac, 'b': frac, 'eangle': ang,
+        'sides': st.sampled_from([3, 4, 5, 6, 7, 8, 12]), 'protation': ang,
+        'vanes': st.integers(1, 8), 'width': st.integers(0, 6000).map(lambda v: v / 1000), 'srotation': ang,
+        'cf': st.integers(50, 950).map(lambda v: v / 1000), 'fangle': st.one_of(st.just(0.0), ang),
+        'layout': U.layouts, 'rows_reversed': st.booleans(),
+    })
+
+
+def int_grid(case):
+    """whole-number coordinate arrays of the dtype case['idt']: signed - sample i of an axis of length n at (i - n//2) dx; unsigned - at
+    (i + i0) dx.  dx is a whole number chosen so that every coordinate and every coordinate - centre (|centre| <= 3 dx) fits the dtype."""
+    ny, nx = case['shape']
+    dt = np.dtype(case['idt'])
+    M = int(np.iinfo(dt).max)
+    if dt.kind == 'u':
+        ix, iy = [i + case['i0'] for i in range(nx)], [i + case['i0'] for i in range(ny)]
+    else:
+        ix, iy = [i - nx // 2 for i in range(nx)], [i - ny // 2 for i in range(ny)]
+    maxidx = max(max(abs(i) for i in ix), max(abs(i) for i in iy))
+    dxmax = M // (maxidx + 3)
+    dx = max(1, dxmax * int(case['fill']) // 1000)            # Python ints throughout (uint64 does not fit int64)
+    xv = np.array([i * dx for i in ix], dtype=dt)
+    yv = np.array([i * dx for i in iy], dtype=dt)
+    if case.get('rows_reversed', False):
+        yv = yv[::-1]
+    X = np.broadcast_to(xv[None, :], (ny, nx)).copy()
+    Y = np.broadcast_to(yv[:, None], (ny, nx)).copy()
+    return U.relayout(X, case.get('layout', 'C')), U.relayout(Y, case.get('layout', 'C')), dx, dt, M
+
+
+def fillet_margin(xe, ye, w_, h_, c_, cen, ang):
+    xr, yr = _rot(xe, ye, ang)
+    ax_, ay_ = np.abs(xr - cen[0]), np.abs(yr - cen[1])
+    mg = np.maximum(ax_ - w_, ay_ - h_)
+    corner = (ax_ > w_ - c_) & (ay_ > h_ - c_)
+    return np.where(corner, np.hypot(ax_ - (w_ - c_), ay_ - (h_ - c_)) - c_, mg)
+
+
+def check_int_grid(case, ctx):
+    """every primitive on whole-number coordinate arrays of every integer width (int8 .. int64, uint8 .. uint64) whose extent is large
+    enough that squares and products of coordinates do not fit the dtype: membership vs the analytic shape evaluated by the harness in
+    float64, growth of offset_circle.  The centre as Python ints (coordinate - centre keeps the integer dtype), as floats, as numpy
+    integers of the grid's dtype."""
+    from prysm import geometry as G
+    keep = Keep(ctx)
+    x, y, dxi, dt, M = int_grid(case)
+    keep.arg('x', x), keep.arg('y', y)
+    ny, nx = x.shape
+    dx = float(dxi)
+    xe, ye = x.astype(np.float64), y.astype(np.float64)
+    unsigned = dt.kind == 'u'
+    cs = [int(v) for v in case['center']]
+    cform = case.get('center_form', 'int')
+    if unsigned and cform != 'float':
+        # coordinate - centre is evaluated in the unsigned dtype: the centre is at or before the first sample
+        cs = [min(abs(v), case['i0']) for v in cs]
+    ci = (cs[0] * dxi, cs[1] * dxi)
+    cen = {'int': ci, 'float': (float(ci[0]), float(ci[1])), 'np-same': (dt.type(ci[0]), dt.type(ci[1])) if cform == 'np-same' else None}[cform]
+    cf = (float(ci[0]), float(ci[1]))
+    S = float(np.hypot(xe - cf[0], ye - cf[1]).max())           # size of the numbers the routines work with
+    S = max(S, float(np.hypot(xe, ye).max()))
+    extent = max(float(np.abs(xe).max()), float(np.abs(ye).max()))
+    # numpy evaluates hypot / arctan2 of 8-bit integers in float16 and of 16-bit integers in float32 (and compares the result with a
+    # Python-float size in that precision): samples closer to the boundary than the rounding of that arithmetic are don't-care
+    wp = {1: 2.0 ** -10, 2: 2.0 ** -23}.get(dt.itemsize, 0.0)
+    band0 = 1e-9 * S + 4 * wp * S                 # one hypot and one comparison
+    bandr = 1e-7 * S + 32 * wp * S                # through polar coordinates, an added angle, and back
+    ctx.label('grid-dtype:' + dt.name, 'center-as:' + cform, 'centre:' + ('origin' if ci == (0, 0) else 'offset'), 'layout:' + case.get('layout', 'C'),
+              'squares-overflow-the-dtype' if extent * extent > M else 'products-overflow-the-dtype' if 2 * extent * 3 * dx > M else 'squares-fit-the-dtype',
+              'rows-reversed' if case.get('rows_reversed', False) else 'rows-ascending')
+    snap = bool(case.get('snap', False))
+    half = min(extent, S)
+
+    def size(v):
+        return max(1.0, float(round(v / dx))) * dx if snap else v
+    nontriv = False
+    # offset_circle
+    r2 = size(case['rad'] * half)
+    r1 = size(0.6 * case['rad'] * half)
+    rarg = int(r2) if snap and cform == 'int' else r2      # a whole-number radius written as a Python int
+    oc = np.asarray(keep.result('offset_circle(r2)', ctx.call(G.offset_circle, rarg, x, y, cen)))
+    U.check_shape(oc, (ny, nx), 'offset_circle')
+    ro = np.hypot(xe - cf[0], ye - cf[1])
+    what = ' on %s coordinates %d x %d, spacing %d, extent %.6g (dtype max %d)' % (dt.name, ny, nx, dxi, extent, M)
+    msg = compare_mask(ctx, oc, ro <= r2, ro - r2, band0, 'offset_circle', 'offset_circle(%r, center=%r)%s' % (rarg, cen, what))
+    ctx.require(msg is None, 'offset_circle:membership:integer-grid', msg or '')
+    nontriv = nontriv or (bool(oc.any()) and not bool(oc.all()))
+    oc1 = np.asarray(ctx.call(G.offset_circle, r1, x, y, cen))
+    viol = oc1 & ~oc & (np.abs(ro - r1) > band0) & (np.abs(ro - r2) > band0)
+    ctx.require(not viol.any(), 'offset_circle:monotone:integer-grid', 'offset_circle(%g) not inside offset_circle(%g)%s: %d samples' % (r1, r2, what, int(viol.sum())))
+    # circle / annulus on the radial coordinate a caller computes from these arrays (numpy's hypot of the integer arrays)
+    rr = keep.arg('r', U.relayout(np.hypot(x, y), case.get('layout', 'C')))
+    re_ = np.hypot(xe, ye)
+    c2 = np.asarray(ctx.call(G.circle, r2, rr))
+    msg = compare_mask(ctx, c2, re_ <= r2, re_ - r2, band0, 'circle', 'circle(%g, hypot(x, y))%s' % (r2, what))
+    ctx.require(msg is None, 'circle:membership:integer-grid', msg or '')
+    an = np.asarray(ctx.call(G.annulus, r1, r2, rr))
+    msg = compare_mask(ctx, an, (re_ >= r1) & (re_ <= r2), np.minimum(np.abs(re_ - r1), np.abs(re_ - r2)), band0, 'annulus', 'annulus(%g, %g, hypot(x, y))%s' % (r1, r2, what))
+    ctx.require(msg is None, 'annulus:membership:integer-grid', msg or '')
+    # rectangle
+    w, h, ang = size(case['w'] * extent), size(case['h'] * extent), float(case['angle'])
+    m = np.asarray(keep.result('rectangle', ctx.call(G.rectangle, w, x, y, height=h, angle=ang)))
+    U.check_shape(m, (ny, nx), 'rectangle')
+    msgs = []
+    for sense in (+1, -1):
+        xr, yr = (xe, ye) if ang == 0 else (ye, xe) if ang == 90 else _rot(xe, ye, sense * ang)
+        mg = np.maximum(np.abs(xr) - w, np.abs(yr) - h)
+        msg = compare_mask(ctx, m, mg <= 0, mg, 1e-9 * S if ang in (0, 90) else bandr, 'rectangle', 'rectangle(%g, height=%g, angle=%g)%s' % (w, h, ang, what))
+        if msg is None:
+            break
+        msgs.append(msg)
+    else:
+        ctx.fail('rectangle:membership:integer-grid:angle=%s' % ('0' if ang == 0 else '90' if ang == 90 else 'other'), ' / '.join(msgs))
+    nontriv = nontriv or (bool(m.any()) and not bool(m.all()))
+    # rotated_ellipse
+    a, b = sorted([size(case['a'] * extent), size(case['b'] * extent)], reverse=True)
+    ea = float(case['eangle'])
+    e = np.asarray(keep.result('rotated_ellipse', ctx.call(G.rotated_ellipse, a, b, x, y, major_axis_angle=ea)))
+    U.check_shape(e, (ny, nx), 'rotated_ellipse')
+    msgs = []
+    for sense in (+1, -1):
+        xr, yr = _rot(xe, ye, sense * ea)
+        q = (xr / a) ** 2 + (yr / b) ** 2
+        msg = compare_mask(ctx, e, q <= 1, q - 1, 1e-9 * max(1.0, (S / b) ** 2), 'rotated_ellipse', 'rotated_ellipse(%g, %g, angle=%g)%s' % (a, b, ea, what))
+        if msg is None:
+            break
+        msgs.append(msg)
+    else:
+        ctx.fail('rotated_ellipse:membership:integer-grid', ' / '.join(msgs))
+    # regular_polygon (the centre is added to the vertices, any centre on unsigned grids too)
+    sides, prot = case['sides'], float(case['protation'])
+    R = size(case['rad'] * half)
+    pcen = cen if not unsigned else (cf[0] + 0.5 * extent, cf[1] + 0.4 * extent)
+    pcf = (float(pcen[0]), float(pcen[1]))
+    pm = np.asarray(keep.result('regular_polygon', ctx.call(G.regular_polygon, sides, R, x, y, center=pcen, rotation=prot)))
+    U.check_shape(pm, (ny, nx), 'regular_polygon')
+    mgp = poly_margin(xe, ye, sides, R, pcf, prot)
+    msg = compare_mask(ctx, pm, mgp < 0, mgp, 1e-7 * R + 1e-9 * S, 'regular_polygon', 'regular_polygon(%d, %g, center=%r, rotation=%g)%s' % (sides, R, pcen, prot, what))
+    ctx.require(msg is None, 'regular_polygon:membership:integer-grid', msg or '')
+    nontriv = nontriv or (bool(pm.any()) and not bool(pm.all()))
+    # spider (coordinate - centre in the dtype of the grid)
+    vanes, width, srot = case['vanes'], case['width'] * dx, float(case['srotation'])
+    sp = np.asarray(keep.result('spider', ctx.call(G.spider, vanes, width, x, y, rotation=srot, center=cen)))
+    U.check_shape(sp, (ny, nx), 'spider')
+    msgs = []
+    for sense in ((+1,) if srot == 0 else (+1, -1)):
+        want, mgs = spider_model(xe, ye, vanes, width, sense * srot, cf)
+        msg = compare_mask(ctx, sp, want, mgs, bandr, 'spider', 'spider(%d, %g, rotation=%g, center=%r)%s' % (vanes, width, srot, cen, what))
+        if msg is None:
+            break
+        msgs.append(msg)
+    else:
+        ctx.fail('spider:membership:integer-grid', ' / '.join(msgs))
+    # rectangle_with_corner_fillets (reads the spacing from x[0, 1] - x[0, 0]: at least two columns)
+    if nx >= 2:
+        fw, fh = max(size(0.8 * case['w'] * extent), 2 * dx), max(size(0.8 * case['h'] * extent), 2 * dx)
+        fc = case['cf'] * min(fw, fh)
+        fang = float(case['fangle'])
+        fcen = cen if not unsigned else pcen
+        fm = np.asarray(keep.result('rectangle_with_corner_fillets', ctx.call(G.rectangle_with_corner_fillets, fw, fh, fc, x, y, center=fcen, rotation=fang)))
+        U.check_shape(fm, (ny, nx), 'fillet-rectangle')
+        fband = (2 * dx) ** 2 / (8 * fc) + (1e-7 * S if fang == 0 else bandr)
+        msgs = []
+        for sense in (+1, -1):
+            mgf = fillet_margin(xe, ye, fw, fh, fc, (float(fcen[0]), float(fcen[1])), sense * fang)
+            msg = compare_mask(ctx, fm, mgf <= 0, mgf, fband, 'fillet-rectangle', 'rectangle_with_corner_fillets(%g, %g, %g, center=%r, rotation=%g)%s' % (fw, fh, fc, fcen, fang, what))
+            if msg is None:
+                break
+            msgs.append(msg)
+        else:
+            ctx.fail('fillet-rectangle:membership:integer-grid', ' / '.join(msgs))
+    ctx.nt(nontriv)
+    keep.verify('integer-grid')
+
+
 CLAUSES = [
+    HypClause('integer_grids', strat_int_grid, check_int_grid, examples={'quick': 500, 'thorough': 3000}, shards={'quick': 2, 'thorough': 6}),
     HypClause('hex_tiling', strat_hex, check_hex_tiling, examples={'quick': 250, 'thorough': 1400}, shards={'quick': 4, 'thorough': 12}),
     EnumClause('hex_single_exclusions', enum_hex_single, check_hex_tiling, shards={'quick': 2, 'thorough': 8}),
     HypClause('hex_opd', strat_hex_opd, check_hex_opd, examples={'quick': 200, 'thorough': 1000}, shards={'quick': 2, 'thorough': 8}),
